@@ -9,10 +9,13 @@ Accept (415 for a bodiless POST/PUT/PATCH, else 406) → one of the remaining ro
 Full statement (false on the current code, see the witnesses):
   theorem C02_classify (hwf : cfg.wfTemplates) (hh : mediaHygiene cfg) :
       c02Holds E cfg req (route E cfg req) (if selected then 1 else 0) = true
-The proofs force three hypotheses, each the class of a known finding:
+The proofs force two hypotheses, each the class of a known finding:
   F03  CurlyRouter ignores the regex of a root-path variable     (`noRootRegex`)
-  F04  two notions of "has a body" in detectRoute                 (`bodyCoherent`)
   F16  RouterJSR311: `.` in the compiled expression stops at '\n' (`'\n' ∉ req.path`)
+F04 (two notions of "has a body" in detectRoute) is repaired: `detectRoute` asks `ContentLength ≠ 0`
+at the Content-Type step and `ContentLength = 0` at the Accept step, which is `Spec.hasBody`; the
+former hypothesis `Spec.bodyCoherent req` is gone from both theorems, and the former witness request
+(chunked POST) now satisfies the table (`C02_F04_fixed`).
 -/
 import Restful.Lemmas.Classify
 namespace Restful
@@ -28,24 +31,23 @@ theorem C02_total (cfg : Config) (hwf : cfg.wfTemplates = true)
 
 /-- CurlyRouter: the outcome is exactly what the decision table says -/
 theorem C02_classify_curly_partial (cfg : Config) (hk : cfg.router = .curly) (hwf : cfg.wfTemplates = true)
-    (hh : Spec.mediaHygiene cfg = true) (hr : Spec.noRootRegex cfg = true) (req : Req)
-    (hb : Spec.bodyCoherent req = true) :
+    (hh : Spec.mediaHygiene cfg = true) (hr : Spec.noRootRegex cfg = true) (req : Req) :
     Spec.c02Holds E cfg req (route E cfg req)
       (match route E cfg req with | .selected _ _ _ => 1 | _ => 0) = true :=
-  Restful.C02_classify_curly_partial E cfg hk hwf hh hr req hb
+  Restful.C02_classify_curly_partial E cfg hk hwf hh hr req
 
 /-- RouterJSR311: the outcome is exactly what the decision table says -/
 theorem C02_classify_jsr_partial (cfg : Config) (hk : cfg.router = .jsr) (hwf : cfg.wfTemplates = true)
-    (hroots : Jsr.rootsRead cfg = true) (hh : Spec.mediaHygiene cfg = true) (req : Req) (hn : '\n' ∉ req.path)
-    (hb : Spec.bodyCoherent req = true) :
+    (hroots : Jsr.rootsRead cfg = true) (hh : Spec.mediaHygiene cfg = true) (req : Req) (hn : '\n' ∉ req.path) :
     Spec.c02Holds E cfg req (route E cfg req)
       (match route E cfg req with | .selected _ _ _ => 1 | _ => 0) = true :=
-  Restful.C02_classify_jsr_partial E cfg hk hwf hroots hh req hn hb
+  Restful.C02_classify_jsr_partial E cfg hk hwf hroots hh req hn
 
-/-! The `decide`d witnesses showing that the hypotheses cannot be dropped live next to the lemmas
-(Lemmas/Classify.lean) and are audited with this property: -/
+/-! The `decide`d witnesses showing that the remaining hypotheses cannot be dropped, and the former
+F04 witness turned into a positive instance, live next to the lemmas (Lemmas/Classify.lean) and are
+audited with this property: -/
 -- also: Restful.C02_F03_witness
--- also: Restful.C02_F04_witness
+-- also: Restful.C02_F04_fixed
 -- also: Restful.C02_roots_witness
 
 end Props
